@@ -35,27 +35,28 @@ type Obligation struct {
 }
 
 type Gen struct {
-	w           *World
-	decls       []string
-	declared    map[string]bool
-	facts       []string
-	obls        []*Obligation
-	nfresh      int
-	top         *ssa.Function
-	topKey      string
-	spec        *FuncSpec
-	refs        []string
-	usedDefault map[string]bool
-	usedAssumed map[string]bool
-	usedLemmas  map[string]bool
-	usedInlined map[string]bool
-	problems    []string
-	nameCount   map[string]int
-	axiomsDone  bool
-	inlineStack []string
-	smoke       bool
-	knownLens   map[string]int
-	boxed       map[string]Val
+	w             *World
+	decls         []string
+	declared      map[string]bool
+	facts         []string
+	obls          []*Obligation
+	nfresh        int
+	top           *ssa.Function
+	topKey        string
+	spec          *FuncSpec
+	refs          []string
+	usedDefault   map[string]bool
+	usedAssumed   map[string]bool
+	usedLemmas    map[string]bool
+	modsSkipAlloc bool
+	usedInlined   map[string]bool
+	problems      []string
+	nameCount     map[string]int
+	axiomsDone    bool
+	inlineStack   []string
+	smoke         bool
+	knownLens     map[string]int
+	boxed         map[string]Val
 }
 
 func newGen(w *World, fn *ssa.Function, spec *FuncSpec) *Gen {
@@ -209,8 +210,8 @@ type closureInfo struct {
 }
 
 type mapIter struct {
-	m     Val
-	mt    *types.Map
+	m       Val
+	mt      *types.Map
 	seen    string // heap var name of the seen-set (ghost, per iterator)
 	isStr   bool
 	lastKey Val
